@@ -5,7 +5,7 @@
 From KV Require Export Bytes RustInt Http1Read.
 Open Scope N_scope.
 
-(** ** [kvarn_utils::parse::headers] before 798f3a2 *)
+(** ** [kvarn_utils::parse::headers] before aca6293 *)
 
 Fixpoint position_non_space_old (l : bytes) : option nat :=
   match l with
@@ -59,10 +59,10 @@ Fixpoint hdr_loop_old (all rest : bytes) (pos : nat) (inval : bool) (lf ns ne vs
   end.
 Definition parse_headers_old (b : bytes) : outcome (hmap * nat) := hdr_loop_old b b 0 false 0 0 0 0 [].
 
-(** [utils::valid_method(b) || utils::valid_version(b)] before 476f63c: the closed list *)
+(** [utils::valid_method(b) || utils::valid_version(b)] before 2dbf4ed: the closed list *)
 Definition valid_start_old (b : bytes) : bool := existsb (fun t => starts_with t b) start_tokens.
 
-(** [Http1Body::poll_read] before ef57263 *)
+(** [Http1Body::poll_read] before 9c56fae *)
 Definition hb_read_old (mode : N) (b : hbody) (r : reader) (window : nat) : outcome (bytes * hbody * reader) :=
   if (hb_offset b <? length (hb_bytes b))%nat then
     let n := Nat.min window (length (hb_bytes b) - hb_offset b) in
@@ -75,7 +75,7 @@ Definition hb_read_old (mode : N) (b : hbody) (r : reader) (window : nat) : outc
         Ok (got, mk_hbody (hb_bytes b) (hb_offset b + length got) (hb_cl b) (hb_unread b - length got), r')
     end.
 
-(** [Http1Body::read_to_bytes] before c0cb1f5: whatever [offset] says, it starts at the first early byte *)
+(** [Http1Body::read_to_bytes] before 2820a60: whatever [offset] says, it starts at the first early byte *)
 Definition hb_read_to_bytes_old (grow : nat -> nat -> nat -> nat) (mode : N) (b : hbody) (r : reader) (limit : N)
   : outcome (bytes * reader) :=
   read_to_bytes grow mode (hb_bytes b) (N.of_nat (hb_cl b)) limit r.
